@@ -22,6 +22,7 @@ pub const HEADER: &str = "From CC Require Import Base.Prelude Base.Scalar Base.T
 
 /// bit programs over scalars: x AND y, (x AND y) XOR z, x XOR y, (x XOR y) AND z ...
 fn bit_program(kind: usize) -> Prog {
+    if kind >= 8 { return vector_bit_program(kind); }
     let ctx = create_context().unwrap();
     let g = ctx.create_graph().unwrap();
     let t = scalar_type(BIT);
@@ -45,6 +46,32 @@ fn bit_program(kind: usize) -> Prog {
     ctx.finalize().unwrap();
     Prog { ctx, g, input_types: vec![t; n_in], attempts: vec![] }
 }
+
+/// programs with a vector-typed private input (every element of a shared vector needs its own
+/// masks): 8: x[0]*y + x[1];  9: x[0] + x[1]   (x : Vector(2, bit), y : bit)
+fn vector_bit_program(kind: usize) -> Prog {
+    let ctx = create_context().unwrap();
+    let g = ctx.create_graph().unwrap();
+    let t = scalar_type(BIT);
+    let vt = vector_type(2, t.clone());
+    let x = g.input(vt.clone()).unwrap();
+    let i0 = g.constant(scalar_type(UINT64), Value::from_scalar(0u64, UINT64).unwrap()).unwrap();
+    let i1 = g.constant(scalar_type(UINT64), Value::from_scalar(1u64, UINT64).unwrap()).unwrap();
+    let (x0, x1) = (x.vector_get(i0).unwrap(), x.vector_get(i1).unwrap());
+    let (o, its) = if kind == 8 {
+        let y = g.input(t.clone()).unwrap();
+        (x0.multiply(y).unwrap().add(x1).unwrap(), vec![vt, t])
+    } else {
+        (x0.add(x1).unwrap(), vec![vt])
+    };
+    g.set_output_node(o).unwrap();
+    g.finalize().unwrap();
+    ctx.set_main_graph(g.clone()).unwrap();
+    ctx.finalize().unwrap();
+    Prog { ctx, g, input_types: its, attempts: vec![] }
+}
+
+fn bits_of_type(t: &Type) -> usize { match t { Type::Vector(n, _) => *n as usize, _ => 1 } }
 
 fn bitval(b: u8) -> Value { Value::from_scalar(b, BIT).unwrap() }
 
@@ -78,20 +105,30 @@ fn junk(mode: u8, k: &[u8], iv: u64, n: u64) -> Vec<u8> {
 
 const SEEDS: [[u8; 16]; 3] = [[1u8; 16], [2u8; 16], [3u8; 16]];
 
-fn party_inputs_bits(owners: &[IOStatus], xs: &[u8]) -> Vec<[PV; 3]> {
+fn party_inputs_bits(input_types: &[Type], owners: &[IOStatus], xs: &[u8]) -> Vec<[PV; 3]> {
     // party inputs: real where owned / public, 0 (junk) otherwise; no Shared owners here
-    owners.iter().zip(xs.iter()).map(|(o, x)| match o {
-        IOStatus::Public => [PV::Val(bitval(*x)), PV::Val(bitval(*x)), PV::Val(bitval(*x))],
-        IOStatus::Party(q) => { let mut a = [PV::Val(bitval(0)), PV::Val(bitval(0)), PV::Val(bitval(0))]; a[*q as usize] = PV::Val(bitval(*x)); a }
-        IOStatus::Shared => unreachable!(),
-    }).collect()
+    let mut pos = 0usize;
+    let mut res = vec![];
+    for (t, o) in input_types.iter().zip(owners.iter()) {
+        let k = bits_of_type(t);
+        let mk = |bits: &[u8]| -> Value { if let Type::Vector(_, _) = t { Value::from_vector(bits.iter().map(|b| bitval(*b)).collect()) } else { bitval(bits[0]) } };
+        let real = mk(&xs[pos..pos + k]);
+        let junk = mk(&vec![0u8; k]);
+        pos += k;
+        res.push(match o {
+            IOStatus::Public => [PV::Val(real.clone()), PV::Val(real.clone()), PV::Val(real)],
+            IOStatus::Party(q) => { let mut a = [PV::Val(junk.clone()), PV::Val(junk.clone()), PV::Val(junk)]; a[*q as usize] = PV::Val(real); a }
+            IOStatus::Shared => unreachable!(),
+        });
+    }
+    res
 }
 
 /// One exact run: tape = assignment of bits to the PRF cells of legitimately held keys, in order
-/// of first use.  Returns the observer's view, its output (if revealed) and, for the junk check,
+/// of first use.  Returns every party's view, its output (if revealed) and, for the junk check,
 /// everything delivered to anyone.
-fn run_view(c: &Compiled, owners: &[IOStatus], revealed: bool, legit: &HashSet<Vec<u8>>, junk_mode: u8, xs: &[u8], tape: u64, observer: usize, ncells: &mut usize) -> (Vec<u8>, Option<Vec<u8>>, Vec<u8>) {
-    let ins = party_inputs_bits(owners, xs);
+fn run_views(c: &Compiled, input_types: &[Type], owners: &[IOStatus], revealed: bool, legit: &HashSet<Vec<u8>>, junk_mode: u8, xs: &[u8], tape: u64, ncells: &mut usize) -> ([Vec<u8>; 3], [Option<Vec<u8>>; 3], Vec<u8>) {
+    let ins = party_inputs_bits(input_types, owners, xs);
     let mut table: HashMap<(Vec<u8>, u64), Value> = HashMap::new();
     let mut next = 0usize;
     let mut ideal = |k: &[u8], iv: u64, t: &Type| -> Value {
@@ -109,7 +146,7 @@ fn run_view(c: &Compiled, owners: &[IOStatus], revealed: bool, legit: &HashSet<V
     let r = exec3_with(&c.g, &ins, SEEDS, Some(&mut ideal));
     *ncells = std::cmp::max(*ncells, next);
     // the observer's view: what it receives, plus every PRF value it computes on a key it holds
-    let mut view: Vec<u8> = vec![];
+    let mut view: [Vec<u8>; 3] = [vec![], vec![], vec![]];
     let mut all_deliveries: Vec<u8> = vec![];
     let bits_of = |pv: &PV, t: &Type| -> Vec<u8> { match pv.extract() { Some(v) => flatten_bits(&v, t), None => vec![8] } };
     let nodes = c.g.get_nodes();
@@ -117,7 +154,7 @@ fn run_view(c: &Compiled, owners: &[IOStatus], revealed: bool, legit: &HashSet<V
         let t = nodes[*nid as usize].get_type().unwrap();
         let is_key = t.is_array() && t.get_shape() == vec![128];
         if !is_key { all_deliveries.extend(bits_of(pv, &t)); all_deliveries.push(7); }
-        if *rcv as usize == observer { view.extend(bits_of(pv, &t)); view.push(7); }
+        if (*rcv as usize) < 3 { view[*rcv as usize].extend(bits_of(pv, &t)); view[*rcv as usize].push(7); }
     }
     for n in nodes.iter() {
         if let Operation::PRF(_, t) = n.get_operation() {
@@ -126,7 +163,7 @@ fn run_view(c: &Compiled, owners: &[IOStatus], revealed: bool, legit: &HashSet<V
                 let holds = r.vals[q][kd].extract().and_then(|v| v.access_bytes(|b| Ok(b.to_vec())).ok()).map(|b| legit.contains(&b)).unwrap_or(false);
                 if holds {
                     let b = bits_of(&r.vals[q][n.get_id() as usize], &t);
-                    if q == observer { view.extend(b.clone()); }
+                    view[q].extend(b.clone());
                     all_deliveries.extend(b);
                 }
             }
@@ -135,7 +172,7 @@ fn run_view(c: &Compiled, owners: &[IOStatus], revealed: bool, legit: &HashSet<V
     let oid = c.g.get_output_node().unwrap().get_id() as usize;
     // a shared output is a tuple of shares (no party receives an output value then)
     let out_t = c.g.get_output_node().unwrap().get_type().unwrap();
-    let outv = if revealed { r.vals[observer][oid].extract().map(|v| flatten_bits(&v, &out_t)) } else { None };
+    let outv: [Option<Vec<u8>>; 3] = [0usize, 1, 2].map(|q| if revealed { r.vals[q][oid].extract().map(|v| flatten_bits(&v, &out_t)) } else { None });
     (view, outv, all_deliveries)
 }
 
@@ -156,12 +193,16 @@ pub fn enumerate_views(kind: usize, owners: &[IOStatus], outs: &[IOStatus], out:
     let desc0 = json!({"program": kind, "owners": owners.iter().map(status_str).collect::<Vec<_>>(), "outputs": outs.iter().map(status_str).collect::<Vec<_>>(), "inline": mname});
     let c = match compile(&p, owners, outs, mode) { Outcome::Ok(c) => c, _ => { out.stat("compile:notOk"); return; } };
     if std::env::var("C03_DUMP").is_ok() { eprintln!("enumeration program {} owners {:?} outs {:?}", kind, owners.iter().map(status_str).collect::<Vec<_>>(), outs.iter().map(status_str).collect::<Vec<_>>()); dump_graph(&c.g); }
-    let n_in = owners.len();
+    let its = p.input_types.clone();
+    let in_bits: Vec<usize> = its.iter().map(bits_of_type).collect();
+    let n_in: usize = in_bits.iter().sum();
+    // which input a bit position belongs to
+    let owner_of_bit: Vec<usize> = in_bits.iter().enumerate().flat_map(|(j, k)| vec![j; *k]).collect();
     let revealed = !outs.is_empty();
-    let legit = legit_keys(&c, &party_inputs_bits(owners, &vec![0u8; n_in]), SEEDS);
+    let legit = legit_keys(&c, &party_inputs_bits(&its, owners, &vec![0u8; n_in]), SEEDS);
     // dry run to count the cells
     let mut ncells = 0usize;
-    run_view(&c, owners, revealed, &legit, 0, &vec![0u8; n_in], 0, 0, &mut ncells);
+    run_views(&c, &its, owners, revealed, &legit, 0, &vec![0u8; n_in], 0, &mut ncells);
     out.stat(&format!("cells:{}", ncells));
     // junk check: nothing that is delivered, and no PRF value on a held key, depends on the values
     // of PRF evaluations on keys the evaluating party does not legitimately hold
@@ -171,37 +212,38 @@ pub fn enumerate_views(kind: usize, owners: &[IOStatus], outs: &[IOStatus], out:
         for probe in 0..6u64 {
             let tape = probe.wrapping_mul(0x9E3779B97F4A7C15) & mask;
             let xs: Vec<u8> = (0..n_in).map(|j| ((probe >> j) & 1) as u8).collect();
-            let a = run_view(&c, owners, revealed, &legit, 0, &xs, tape, 0, &mut nc).2;
-            let b = run_view(&c, owners, revealed, &legit, 1, &xs, tape, 0, &mut nc).2;
-            let d = run_view(&c, owners, revealed, &legit, 2, &xs, tape, 0, &mut nc).2;
+            let a = run_views(&c, &its, owners, revealed, &legit, 0, &xs, tape, &mut nc).2;
+            let b = run_views(&c, &its, owners, revealed, &legit, 1, &xs, tape, &mut nc).2;
+            let d = run_views(&c, &its, owners, revealed, &legit, 2, &xs, tape, &mut nc).2;
             if a != b || a != d { out.stat("enumeration-skipped-junk-prf-value-is-delivered"); return; }
         }
     }
     if ncells > max_cells { out.stat("enumeration-skipped-too-many-cells"); return; }
     let ntapes = 1u64 << ncells;
-    out.stat_n("exact_executions", ntapes * (1u64 << n_in) * 3);
-    // histograms[observer][inputs] : view -> count
-    for observer in 0..3usize {
-        let mut hists: Vec<HashMap<Vec<u8>, u64>> = vec![];
-        let mut outsv: Vec<Option<Vec<u8>>> = vec![];
-        for xm in 0..(1u32 << n_in) {
-            let xs: Vec<u8> = (0..n_in).map(|j| ((xm >> j) & 1) as u8).collect();
-            let mut h = HashMap::new();
-            let mut ov = None;
-            for tape in 0..ntapes {
-                let mut nc = 0;
-                let (v, o, _) = run_view(&c, owners, revealed, &legit, 0, &xs, tape, observer, &mut nc);
-                *h.entry(v).or_insert(0) += 1;
-                ov = o;
-            }
-            hists.push(h);
-            outsv.push(ov);
+    out.stat_n("exact_executions", ntapes * (1u64 << n_in));
+    // histograms[observer][inputs] : view -> count (one execution gives all three views)
+    let mut all_hists: [Vec<HashMap<Vec<u8>, u64>>; 3] = [vec![], vec![], vec![]];
+    let mut all_outsv: [Vec<Option<Vec<u8>>>; 3] = [vec![], vec![], vec![]];
+    for xm in 0..(1u32 << n_in) {
+        let xs: Vec<u8> = (0..n_in).map(|j| ((xm >> j) & 1) as u8).collect();
+        let mut h: [HashMap<Vec<u8>, u64>; 3] = [HashMap::new(), HashMap::new(), HashMap::new()];
+        let mut ov: [Option<Vec<u8>>; 3] = [None, None, None];
+        for tape in 0..ntapes {
+            let mut nc = 0;
+            let (v, o, _) = run_views(&c, &its, owners, revealed, &legit, 0, &xs, tape, &mut nc);
+            for q in 0..3 { *h[q].entry(v[q].clone()).or_insert(0) += 1; }
+            ov = o;
         }
+        for q in 0..3 { all_hists[q].push(std::mem::take(&mut h[q])); all_outsv[q].push(ov[q].clone()); }
+    }
+    for observer in 0..3usize {
+        let hists = &all_hists[observer];
+        let outsv = &all_outsv[observer];
         let is_out = outs.contains(&IOStatus::Party(observer as u64));
         for a in 0..(1usize << n_in) {
             for b in (a + 1)..(1usize << n_in) {
                 // same inputs of the observer (owned or public)
-                let same_in = (0..n_in).all(|j| match &owners[j] { IOStatus::Party(q) if *q as usize == observer => (a >> j) & 1 == (b >> j) & 1, IOStatus::Public => (a >> j) & 1 == (b >> j) & 1, _ => true });
+                let same_in = (0..n_in).all(|j| match &owners[owner_of_bit[j]] { IOStatus::Party(q) if *q as usize == observer => (a >> j) & 1 == (b >> j) & 1, IOStatus::Public => (a >> j) & 1 == (b >> j) & 1, _ => true });
                 if !same_in { continue; }
                 if is_out && outsv[a] != outsv[b] { continue; }
                 if hists[a] != hists[b] {
@@ -494,18 +536,20 @@ pub fn run(tier: &str, seed: u64, out: &mut Out) {
     let cfgs: Vec<(usize, Vec<IOStatus>, Vec<IOStatus>)> = vec![
         (2, vec![IOStatus::Party(0), IOStatus::Party(1)], vec![IOStatus::Party(2)]),
         (4, vec![IOStatus::Party(0), IOStatus::Party(1), IOStatus::Public], vec![IOStatus::Party(2)]),
+        (9, vec![IOStatus::Party(1)], vec![IOStatus::Party(2)]),
         (2, vec![IOStatus::Party(0), IOStatus::Party(1)], vec![IOStatus::Party(0)]),
         (0, vec![IOStatus::Party(0), IOStatus::Party(1)], vec![IOStatus::Party(2)]),
         (0, vec![IOStatus::Party(1), IOStatus::Party(2)], vec![IOStatus::Party(1)]),
         (0, vec![IOStatus::Party(0), IOStatus::Public], vec![IOStatus::Party(1), IOStatus::Party(2)]),
         (1, vec![IOStatus::Party(0), IOStatus::Party(1), IOStatus::Party(2)], vec![IOStatus::Party(0)]),
         (3, vec![IOStatus::Party(0), IOStatus::Party(1), IOStatus::Party(2)], vec![]),
+        (8, vec![IOStatus::Party(1), IOStatus::Party(2)], vec![IOStatus::Party(2)]),
         (4, vec![IOStatus::Party(0), IOStatus::Party(1), IOStatus::Party(2)], vec![IOStatus::Party(2)]),
         (5, vec![IOStatus::Party(1), IOStatus::Party(2), IOStatus::Party(0)], vec![IOStatus::Party(0)]),
         (6, vec![IOStatus::Party(0), IOStatus::Party(1), IOStatus::Party(2)], vec![IOStatus::Party(1)]),
         (7, vec![IOStatus::Party(0), IOStatus::Party(1), IOStatus::Party(2)], vec![IOStatus::Party(2)]),
     ];
-    let (take, max_cells) = match tier { "thorough" => (cfgs.len(), 18), "search" => (cfgs.len(), 20), _ => (4, 13) };
+    let (take, max_cells) = match tier { "thorough" => (cfgs.len(), 18), "search" => (cfgs.len(), 20), _ => (5, 13) };
     for (kind, owners, outs) in cfgs.into_iter().take(take) {
         enumerate_views(kind, &owners, &outs, out, max_cells);
     }
